@@ -7,7 +7,7 @@ import (
 	"unsafe"
 	//"github.com/metrico/qryn/writer/fingerprints_limiter"
 	"github.com/metrico/qryn/writer/model"
-	//customErrors "github.com/metrico/qryn/writer/utils/errors"
+	customErrors "github.com/metrico/qryn/writer/utils/errors"
 	"github.com/metrico/qryn/writer/utils/logger"
 	"github.com/metrico/qryn/writer/utils/numbercache"
 	"google.golang.org/protobuf/proto"
@@ -362,6 +362,12 @@ func (p *parserDoer) onEntries(labels [][]string, timestampsNS []int64,
 
 func (p *parserDoer) onSpan(traceId []byte, spanId []byte, timestampNs int64, durationNs int64,
 	parentId string, name string, serviceName string, payload []byte, key []string, val []string) error {
+	if len(traceId) != 16 || len(spanId) != 8 {
+		// trace_id / span_id are FixedString(16) / FixedString(8) columns: appending any other length panics
+		// inside the insert service, outside of every recover
+		return customErrors.New400Error(fmt.Sprintf(
+			"invalid span: trace id must be 16 bytes and span id 8 bytes, got %d and %d", len(traceId), len(spanId)))
+	}
 	p.spans.MTraceId = append(p.spans.MTraceId, traceId)
 	p.spans.MSpanId = append(p.spans.MSpanId, spanId)
 	p.spans.MTimestampNs = append(p.spans.MTimestampNs, timestampNs)
